@@ -15,3 +15,12 @@ package processor
 //verif:loop 1 invariant j1 < len(records) && len(outRecs) == len(records)
 //verif:loop 2 vars j2=rangeindex
 //verif:loop 2 invariant 0 <= nextPassthrough && 0 <= nextOut && len(tmp) == nextPassthrough + nextOut && len(tmp) == j2 + 1 && j2 < len(records)
+
+// C13: opening a runnable processor never touches the instance's running flag. The
+// reservation is taken by Service.MakeRunnableProcessor and released by Teardown only:
+// the runnable built for a live reconfigure shares the *Instance with the processor that
+// is still running, so a failed Open of the new one must leave the flag alone.
+//verif:func (*RunnableProcessor).Open(p, ctx) (err)
+//verif:never (*Bool).Store
+//verif:ensures[error-when-configure-or-open-fails] called("Processor.Configure") && !succeeded("Processor.Configure") || called("Processor.Open") && !succeeded("Processor.Open") ==> err != nil
+//verif:call[configure-before-open] Processor.Open requires succeeded("Processor.Configure")
